@@ -27,6 +27,7 @@ type AcctInfo struct {
 	Secret []byte
 	KName  string // canonical short name used in logs (k0, k1, ...)
 	Locked bool   // created with a passphrase the unlocker does not know
+	idx    int
 }
 
 // Population is a wallet store with accounts, built once per process and shared by runs.
@@ -105,7 +106,7 @@ func NewPopulation(t *testing.T, tag string, specs []WalletSpec) *Population {
 			if err != nil {
 				panic(err)
 			}
-			info := &AcctInfo{Wallet: spec.Name, Name: an, Path: spec.Name + "/" + an, PubKey: a.PublicKey().Marshal(), Secret: sec, KName: fmt.Sprintf("k%d", n), Locked: locked}
+			info := &AcctInfo{Wallet: spec.Name, Name: an, Path: spec.Name + "/" + an, PubKey: a.PublicKey().Marshal(), Secret: sec, KName: fmt.Sprintf("k%d", n), Locked: locked, idx: n}
 			p.Accts = append(p.Accts, info)
 			p.byKey[string(info.PubKey)] = info
 			p.byPath[info.Path] = info
